@@ -1,6 +1,8 @@
+import Chartparse.Proofs.SyncProofs
 import Chartparse.Proofs.C15Proofs
 /-! Property theorems of C15 (statements only; helper lemmas live in `Proofs/`). -/
 namespace Chartparse.Props.C15
+open Chartparse.F64 Chartparse.Inst Chartparse.Meta
 open Chartparse Chartparse.Tempo
 
 /-- whatever is wrong with the tempo data, the failure is a `ValueError` -/
@@ -27,5 +29,37 @@ theorem C15_zero_bpm :
     (h : tsAt res evs tick hint = .ok (x, g)),
     ∃ ev, evs[g]? = some ev ∧ 0 < ev.bpm ∧ 0 < res :=
   @Chartparse.Tempo.tsAt_ok_bpm
+
+/-- **C15**: whatever is wrong with the sync data, the failure is a ValueError -/
+theorem C15_sync_err :
+    ∀ (res : Int) (bd : List (Nat × Rat)) (td : List (Nat × Nat × Option Nat)) (ad : List (Nat × Nat))
+    (e : PyErr) (h : buildSync res bd td ad = .error e),
+    e = .valueError :=
+  @Chartparse.buildSync_err
+
+/-- **C15**: a sync track that was built satisfies every trust condition the property lists — positive resolution, a tempo
+    at tick 0, strictly increasing tempo ticks (at every position), every tempo passing the three-decimal validation, a
+    time signature at tick 0 -/
+theorem C15_sync_ok :
+    ∀ (res : Int) (bd : List (Nat × Rat)) (td : List (Nat × Nat × Option Nat)) (ad : List (Nat × Nat))
+    (s : Sync) (h : buildSync res bd td ad = .ok s),
+    0 < res ∧ (∃ b rest, bd = (0, b) :: rest) ∧ (s.bpms.map (·.tick)).Pairwise (· < ·) ∧
+    s.bpms.map (fun e => (e.tick, e.bpm)) = bd ∧ (∀ tb ∈ bd, validBpm tb.2 = true) ∧
+    (∃ u l rest, td = (0, u, l) :: rest) :=
+  @Chartparse.buildSync_ok
+
+/-- **C15 at chart level**: a chart that parsed has a positive resolution and a tempo map with strictly increasing ticks
+    starting at tick 0 — so every timestamp in it came out of a trustworthy map -/
+theorem C15_chart :
+    ∀ (secs : Sections) (want : Option (List (Nat × Nat))) (c : Chart)
+    (h : parseSections secs want = .ok c),
+    0 < c.res ∧ (c.sync.bpms.map (·.tick)).Pairwise (· < ·) ∧ (∃ e rest, c.sync.bpms = e :: rest ∧ e.tick = 0) ∧
+    (∃ e rest, c.sync.tss = e :: rest ∧ e.tick = 0) :=
+  @Chartparse.parseSections_trust
+
+/-- non-vacuity: the tempo map of tests/data/test.chart satisfies the conclusions; a duplicated tick is rejected -/
+example : (buildMap 100 [(0, 117), (800, 120), (1200, 90)]).toOption.isSome = true ∧
+    (buildMap 100 [(0, 117), (800, 120), (800, 90)]).toOption = none ∧ (buildMap 0 [(0, 117)]).toOption = none ∧
+    (buildMap 100 [(5, 117)]).toOption = none := by decide +kernel
 
 end Chartparse.Props.C15
